@@ -388,3 +388,43 @@ def shared_strop(ctx: Ctx) -> None:
     from . import C15 as _c15
     from .common import support
     support(ctx, [_c15.r7_runs, _c15.r4], {"StropInstance.__init__"})
+
+
+@rule("C19", "R11.converter-kinds-exclusive", "SCHEMA",
+      "the FloorSet converter never writes a module that the reader refuses for its kind: 'hard' and 'fixed' are stored in the module's "
+      "mapping only under conditions that exclude each other (the reader asserts that a module is not both), and a mapping that gets "
+      "'terminal' gets neither", floor=2)
+def r11_kinds(ctx: Ctx) -> None:
+    from .common import FSMAN
+    f = ctx.func(FSMAN, "FloorSetInstance._parse_modules")
+    c = canon_function(f, ctx.model)
+    kh, kf, kt = k_str(kw_value(ctx, "KW_HARD")), k_str(kw_value(ctx, "KW_FIXED")), k_str(kw_value(ctx, "KW_TERMINAL"))
+    by_dict: dict = {}
+    # every store  d[key] = v  with the conditions it is under, grouped by the mapping d
+    def walk(stmts, conds):
+        for st in stmts:
+            if st[0] == "set" and len(st) == 3 and isinstance(st[1], tuple) and st[1][:1] == ("s",) and st[1][2] in (kh, kf, kt):
+                by_dict.setdefault(st[1][1], []).append((st[1][2], conds))
+            elif st[0] == "if" and len(st) == 4:
+                walk(st[2], conds + (st[1],))
+                walk(st[3], conds + (mk_not(st[1]),))
+            elif st[0] in ("for", "while"):
+                walk(st[3], conds)
+    walk(c, ())
+    n = 0
+
+    def exclusive(c1, c2) -> bool:
+        return any(mk_not(a) in c2 for a in c1) or any(mk_not(b) in c1 for b in c2)
+    for d, stores in by_dict.items():
+        for i, (k1, c1) in enumerate(stores):
+            for k2, c2 in stores[i + 1:]:
+                if k1 == k2:
+                    continue
+                n += 1
+                ok = exclusive(c1, c2)
+                ctx.site(f.where, f"{k1[2]} and {k2[2]} never stored in the same mapping", exclusive=ok)
+                if not ok:
+                    ctx.report(f.where, f"kinds-together {k1[2]}+{k2[2]}", f"_parse_modules can store both '{k1[2]}' and '{k2[2]}' in the mapping of one module: the "
+                               "netlist reader refuses such a module (a module is soft, hard, fixed or a terminal -- one of them), so the converted design "
+                               "cannot be loaded", lineno=f.node.lineno)
+    ctx.require(n >= 1, "_parse_modules: the stores of the module kinds were not found")
